@@ -726,6 +726,37 @@ fn tab_exec(case: &str) -> ImplResult {
             if p == "-" && cy == "-" {
                 res.oracle.push(("exit0-without-report".into(), cmdline.clone()));
             }
+            // The option documentation, read independently of main.rs (--help texts): the four formats
+            // exclude one another (clap rejects two); `--pretty` "pretty-prints --json output" and is
+            // refused where no JSON is produced; `--brief` is "a briefer --human or --dump report" and is
+            // refused for JSON alone. A rejected combination must not end with status 0 and a report.
+            let n_formats = ['h', 'j', 'c', 'd'].iter().filter(|f| has(**f)).count();
+            let json_made = has('j') || has('c');
+            let rejected = n_formats > 1 || (pretty && !json_made) || (brief && has('j') && !has('c'));
+            if rejected {
+                res.oracle.push((
+                    "rejected-combination-produced-a-report".into(),
+                    format!("{cmdline}: the documentation rejects this combination, the tool exited 0 with primary={p} cyborg={cy}"),
+                ));
+            } else {
+                // ... and an accepted one writes exactly the documented kind of report to each writer
+                let want_p = if has('d') {
+                    if brief { "dump-brief" } else { "dump" }
+                } else if has('j') {
+                    if pretty { "json-pretty" } else { "json" }
+                } else if brief {
+                    "human-brief"
+                } else {
+                    "human"
+                };
+                let want_c = if has('c') { if pretty { "json-pretty" } else { "json" } } else { "-" };
+                if !p.starts_with("UNKNOWN") && !cy.starts_with("UNKNOWN") && (p != want_p || cy != want_c) {
+                    res.oracle.push((
+                        "wrong-kind-of-report".into(),
+                        format!("{cmdline}: documented primary={want_p} cyborg={want_c}, the tool wrote primary={p} cyborg={cy}"),
+                    ));
+                }
+            }
         }
         Some(1) => {
             res.out = "exit1".into();
